@@ -336,13 +336,19 @@ PROPS["C11"] = {
               H("ZZ_C11_RoundTrip", params={"COSTS": 1}, reach=["loaded"], bounds="symbolic costs 1..3"),
               H("ZZ_C11_RoundTrip", params={"CAP2": 2}, reach=["loaded"], bounds="smaller target (unit costs)"),
               H("ZZ_C11_RoundTrip", params={"N": 6, "CAP2": 4}, reach=["loaded"], bounds="6 entries, smaller target keeps part of a region (unit costs)"),
-              H("ZZ_C11_RoundTrip", params={"COSTS": 1, "CAP2": 4}, reach=["loaded"], bounds="smaller target, symbolic costs")],
+              H("ZZ_C11_RoundTrip", params={"COSTS": 1, "CAP2": 4}, reach=["loaded"], bounds="smaller target, symbolic costs"),
+              H("ZZ_C11_RoundTrip", params={"ADAPT": 1, "CAP": 16, "N": 16}, reach=["loaded", "window-adapted"], bounds="source cache whose window the hill climber has resized (two sample periods through the real policy), same size"),
+              H("ZZ_C11_RoundTrip", params={"HITALL": 1, "N": 10}, reach=["loaded", "protected-above-its-size"], bounds="source cache saved with the protected region above its size")],
     "thorough": [H("ZZ_C11_RoundTrip", reach=["loaded"]), H("ZZ_C11_RoundTrip", params={"COSTS": 1}, reach=["loaded"]),
                  H("ZZ_C11_RoundTrip", params={"SPLIT": 1}, reach=["loaded"], bounds="block splits at arbitrary points"),
                  H("ZZ_C11_RoundTrip", params={"CAP2": 2}, reach=["loaded"]), H("ZZ_C11_RoundTrip", params={"COSTS": 1, "CAP2": 4}, reach=["loaded"]),
                  H("ZZ_C11_RoundTrip", params={"N": 6, "CAP2": 4}, reach=["loaded"], bounds="6 entries, smaller target keeps part of a region"),
                  H("ZZ_C11_RoundTrip", params={"N": 8, "CAP": 20, "CAP2": 5}, reach=["loaded"], bounds="8 entries, smaller target"),
-                 H("ZZ_C11_RoundTrip", params={"N": 6, "CAP": 4, "CAP2": 4}, reach=["loaded"], bounds="source cache under eviction pressure")],
+                 H("ZZ_C11_RoundTrip", params={"N": 6, "CAP": 4, "CAP2": 4}, reach=["loaded"], bounds="source cache under eviction pressure"),
+                 H("ZZ_C11_RoundTrip", params={"ADAPT": 1, "CAP": 16, "N": 16}, reach=["loaded", "window-adapted"]),
+                 H("ZZ_C11_RoundTrip", params={"ADAPT": 1, "CAP": 32, "N": 32, "CAP2": 16}, reach=["loaded", "window-adapted"], bounds="adapted source, smaller target"),
+                 H("ZZ_C11_RoundTrip", params={"HITALL": 1, "N": 10}, reach=["loaded", "protected-above-its-size"]),
+                 H("ZZ_C11_RoundTrip", params={"COSTS": 1, "N": 5, "CAP2": 6}, reach=["loaded"], bounds="5 entries, symbolic costs, smaller target")],
 }
 
 PROPS["C12"] = {
